@@ -558,7 +558,7 @@ class Concretizer:
                 mtime = MT0 + self.mtick * 1_000_000
             etag = None if n % 7 == 6 else (f"e{n:04d}" if n % 5 == 4 else f'"e{n:04d}"')
             vid = None if n % 4 == 3 else f"v{n}"
-            cks = [[["crc32c", f"c{n}"], ["sha1", f"s{n}"]], [["sha256", f"h{n}"], ["crc32", f"r{n}"]], []][n % 3]
+            cks = [[["crc32c", f"c{n}"], ["sha1", f"s{n}"]], [["crc32", f"r{n}"], ["sha256", f"h{n}"], ["crc32c", f"c{n}"]], []][n % 3]
             op = {"k": "write", "serial": n, "doc": doc, "valid": valid, "sha": hashlib.sha256(data).hexdigest(),
                   "size": len(data), "mtime": mtime, "etag": etag, "vid": vid, "cks": cks, "content": content, "pad": pad}
             self.cur = op
@@ -1114,15 +1114,14 @@ def evaluate_batch(run: lib.Run, batch: list[tuple[dict, list, list, list]], tal
             disagree = d_cached is not None
         lockv = impl[-1].get("lock_violations") or []
         if lockv:
-            disagree = True
-            d_cached = d_cached or {"at": -1, "why": "atomic-block assumption broken: " + "; ".join(lockv)}
+            disagree = True   # the model's atomic blocks are not the code's: correspondence broken, whatever the traces say
         # F9 signature: HTTP source, server sends ETags, the only failing clause is convergence (the engine does
         # not enforce the server's document), and the trace is exactly what the cached-tag variant predicts
         cm, cr = ans.get("converge_model") or {}, ans.get("converge_model_remote") or {}
         f9 = (case["kind"] == "http_etag" and bad == ["converge"] and d_cached is None
               and cm.get("applicable") and not cm.get("ok") and cr.get("applicable") and cr.get("ok"))
         v = {"case": case, "ops": strip_content(ops), "impl": impl, "diff": d_cached if not is_http else (d_cached, d_remote),
-             "disagree": disagree, "spec": spec, "bad": bad, "f9": bool(f9), "variant": variant,
+             "disagree": disagree, "lock_violations": lockv, "spec": spec, "bad": bad, "f9": bool(f9), "variant": variant,
              "model": ans["model"], "model_remote": ans["model_remote"]}
         verdicts.append(v)
         if not record:
@@ -1200,7 +1199,8 @@ def shrink(v: dict, tmpdir: str) -> dict:
 def replay_payload(v: dict, what: str) -> dict:
     return {"what": what, "failing_clauses": v["bad"], "case": v["case"], "concrete_ops": v["ops"],
             "impl_trace": [{f: r[f] for f in FIELDS + ["loaded"]} for r in v["impl"]], "spec": v["spec"],
-            "model_trace": v["model"], "first_difference": v["diff"]}
+            "model_trace": v["model"], "first_difference": v["diff"],
+            "atomic_block_assumption_broken": v.get("lock_violations") or []}
 
 
 F9_LINE = ("F9 HTTPPolicySource.etag() is the locally cached tag: server change after a load is never seen "
@@ -1247,9 +1247,11 @@ def check(run: lib.Run, audit: dict) -> int:
                 run.notes.append(f"F9 witness {rel}: " + ("reproduces (code refines the cached-tag variant)" if v["f9"] else
                                  "does not reproduce (code refines the remote-tag variant)" if not v["bad"] else "fails differently: " + ",".join(v["bad"])))
             elif status == "fixed":
-                if v["bad"] or v["disagree"]:
-                    print(f"[C10] fixed finding {fid} reproduces on the real code: {v['bad'] or 'model/impl differ'}")
+                if v["bad"]:
+                    print(f"[C10] fixed finding {fid} reproduces on the real code: clause(s) {','.join(v['bad'])} fail on its witness")
                     violations.append((os.path.join(lib.VERIF, rel), True))
+                elif v["disagree"]:
+                    run.disagreements.append(v)
             elif v["bad"]:
                 run.spec_failures.append(v)
             elif v["disagree"]:
@@ -1306,5 +1308,6 @@ def replay(run: lib.Run, audit: dict, path: str) -> int:
         flag = "" if proj(rec) == proj(m) else "   <-- model: " + json.dumps({f: m[f] for f in FIELDS if m[f] != rec[f]})
         print(f"{i - 1:3d} {json.dumps(op)[:110]:110s} -> {json.dumps({f: rec[f] for f in FIELDS})}{flag}")
     print("spec on the implementation's trace:", json.dumps(v["spec"]))
-    print("failing clauses:", v["bad"], "| F9 signature:", v["f9"], "| model/impl disagree:", v["disagree"])
+    print("failing clauses:", v["bad"], "| F9 signature:", v["f9"], "| model/impl disagree:", v["disagree"],
+          "| atomic-block assumption broken:", v["lock_violations"])
     return 1 if (v["bad"] or v["disagree"]) else 0
